@@ -34,6 +34,7 @@ func checkC08(c *Ctx, r *Report) {
 	c08APL(c, r)
 	c08Bitmap(c, r)
 	c08OctetCap(c, r)
+	txtEmptyList(c, r, "C08.R1.txt-empty", "a TXT-like record without strings then packs one octet while its length method predicts none: Len() is short by one per such record and Pack() fails for lack of space once the one octet of slack is used up")
 }
 
 func c08Header(c *Ctx, r *Report) {
